@@ -318,4 +318,14 @@ theorem C05_c_opstring_map (s : BitVec 64) (dag undag : List Nat) (hd : âˆ€ x âˆ
 
 example : GenC.mme_entry 0b0110#64 [0] [2] = some (0b0011#64, 1) := by decide
 
+/-- the **reference-path** operator-string map kernel (`FciGraph.make_mapping_each`, Python branch, translated from
+    fci_graph.py on every run over Python ints): admission with the Python masks (a creator index is masked only if it is
+    not also an annihilator index) and the Model's target and parity; with `C05_c_opstring_map` and the mask identity
+    `dagMaskPy = dagMaskC` (Props/C04) the two paths build the same table entry -/
+theorem C05_py_opstring_map (s : Nat) (dag undag : List Nat) :
+    GenPy.mme_entry (s : Int) (GenPy.castL dag) (GenPy.castL undag) =
+      (if (s &&& dagMaskPy dag undag) = 0 âˆ§ ((s &&& undagMask undag) ^^^ undagMask undag) = 0 then
+        some ((((mapEachStep dag undag s).1 : Nat) : Int), (((mapEachStep dag undag s).2 % 2 : Nat) : Int)) else none) :=
+  GenPy.py_mme_entry s dag undag
+
 end C05
